@@ -13,3 +13,34 @@ pub fn panic_violation(sub: &str, p: &vlib::report::Panic, case: Value) -> Viola
         .sig("clause", "no-panic")
         .sig("panic_file", p.file())
 }
+
+/// Generic replay of a case that carries `bytes_hex` (or an asset path).
+pub fn replay_bytes(v: &Value, f: &dyn Fn(&[u8], &mut Acc)) -> i32 {
+    let c = &v["case"];
+    let bytes = if let Some(h) = c["bytes_hex"].as_str() {
+        vlib::unhex(h).unwrap_or_else(|| crate::ctx::machinery("bad hex in replay file"))
+    } else if let Some(a) = c["asset"].as_str() {
+        let mut b = std::fs::read(std::path::Path::new("/repo").join(a)).unwrap_or_else(|_| crate::ctx::machinery("cannot read asset"));
+        if let Some(t) = c["truncated_to"].as_u64() {
+            b.truncate(t as usize);
+        }
+        b
+    } else {
+        println!("this case is not byte-addressed; re-run the check to re-evaluate it:\n{}", c);
+        return 0;
+    };
+    let mut acc = Acc::new();
+    f(&bytes, &mut acc);
+    for (k, n) in &acc.hist {
+        println!("observed: {} x{}", k, n);
+    }
+    for v in acc.viols.values() {
+        println!("REPRODUCED {}: {}", v.key(), v.what);
+    }
+    if acc.viols.is_empty() {
+        println!("not reproduced (case passes)");
+        0
+    } else {
+        1
+    }
+}
